@@ -68,5 +68,10 @@ manifest = {
     "not_applicable": na,
     "notes": "Fix commits for genuine defects are listed in known_findings.json (status fixed). DESIGN.md states the trusted base.",
 }
+try:
+    import jsonschema
+    jsonschema.validate(manifest, json.load(open("/root/.vp/MANIFEST.schema.json")))
+except ImportError:
+    pass
 json.dump(manifest, open(os.path.join(VERIF, "MANIFEST.json"), "w"), indent=1)
 print(f"{len(checks)} checks, {len(na)} not claimed")
